@@ -3,8 +3,19 @@ import JSight.Proofs.C07
 /-!
 C07 — MACRO / PASTE (`core/compile_core_macro.go`, `core/compile_core.go`, `core/compile_core_paste.go`).
 
-Specification (`inlineTree`, `inlineForest`, `pastesOf`, `PasteEdge`, `PasteReach`) and property theorems.
-Helper lemmas (parametric in the admissibility tables): `JSight/Proofs/C07.lean`.
+Specification (`inlineTree`, `inlineForest`, `pastesOf`, `PasteEdge`, `PasteReach`) and property theorems:
+
+* (1) `expand_eq_inline`      pasting = writing the macro body in place (`expand = resolve ∘ inline`)
+* (2) `duplicate_rejected`    a second MACRO of the same name is rejected
+* (3) `self_cycle_rejected`, `cycle_rejected`, `expand_cycle_rejected`   every PASTE cycle is rejected
+* (4) `undefined_rejected`    a PASTE of an undefined macro is never silently dropped
+* (5) `expand_no_fuel`        the fuel computed by `expand` always suffices (bounded time)
+* (6) `unused_macro_inert`    deleting a macro that nothing pastes changes nothing
+
+All theorems are parametric in the admissibility tables (`Gen.rootAllowed`, `Gen.childAllowed`,
+`Gen.httpMethods` are unfolded only by the closing `example`s).  Helper lemmas: `JSight/Proofs/C07.lean`
+(it works with its own copies `pastes` / `Reach` of `pastesOf` / `PasteReach`; `pastesOf_eq` and `reach_iff`
+below identify them).
 -/
 namespace JSight.C07
 open JSight
@@ -35,7 +46,7 @@ mutual
 end
 
 /-- names of the PASTE nodes of a tree, in order.  (A PASTE node has no children of its own — no table
-    admits any — and neither the expansion nor the recursion check looks at them.) -/
+    allows any — and neither the expansion nor the recursion check looks at them.) -/
 def pastesOf : Tree → List Nat
   | .node d kids => if d.kind == Gen.Kind.Paste then [d.name] else pastesOfList kids
 where pastesOfList : List Tree → List Nat
@@ -272,5 +283,68 @@ theorem unused_macro_inert (roots f : List Tree) (m : Tree) (pre post : List Tre
     · exact hun _ h1
   rcases expandList_drop A (m.dir.name, m) C rest (collect_kinds hc) hclean hrest hrec st hl with ⟨hrec', hl'⟩
   rw [expand_of_parts hc' hrec', hl']
+
+/-! ## Examples on the real admissibility tables -/
+
+section Examples
+open Gen
+
+local instance : DecidableEq Tree := decTree
+local instance {ε α : Type} [DecidableEq ε] [DecidableEq α] : DecidableEq (Except ε α) := decExcept
+
+/-- `MACRO @1 ( GET 200 )` -/
+private def mac1 : Tree := .node { kind := .Macro, explicit := true, name := 1, id := 0 }
+  [.node { kind := .Get, id := 1 } [.node { kind := .HTTPResponseCode, id := 2 } []]]
+/-- `MACRO @2 ( PASTE @1  POST )` -/
+private def mac2 : Tree := .node { kind := .Macro, explicit := true, name := 2, id := 6 }
+  [.node { kind := .Paste, name := 1, id := 7 } [], .node { kind := .Post, id := 8 } []]
+private def get' : Dir := { kind := .Get, id := 1 }
+private def code : Dir := { kind := .HTTPResponseCode, id := 2 }
+private def post : Dir := { kind := .Post, id := 8 }
+private def url : Dir := { kind := .URL, id := 3 }
+private def urlX : Dir := { kind := .URL, explicit := true, id := 3 }
+private def ty : Dir := { kind := .Type, id := 5 }
+private def paste (n : Nat) : Tree := .node { kind := .Paste, name := n, id := 4 } []
+/-- `MACRO @1 ( PASTE @2 )`, `MACRO @2 ( PASTE @1 )` -/
+private def cyc1 : Tree := .node { kind := .Macro, explicit := true, name := 1, id := 0 }
+  [.node { kind := .Paste, name := 2, id := 1 } []]
+private def cyc2 : Tree := .node { kind := .Macro, explicit := true, name := 2, id := 2 }
+  [.node { kind := .Paste, name := 1, id := 3 } []]
+
+-- MACRO @1 ( GET 200 )  URL  PASTE @1      expands to URL{GET{200}} …
+example : expand [mac1, .node url [paste 1]] = .ok [.node url [.node get' [.node code []]]] := by
+  decide +kernel
+-- … which is the scan-time resolution of the inlined token stream
+example : inlineForest [(1, mac1)] 20 [.node url [paste 1]] = some [.dir url, .dir get', .dir code] := by
+  decide +kernel
+example : resolve [.dir url, .dir get', .dir code] = .ok [.node url [.node get' [.node code []]]] := by
+  decide +kernel
+
+-- MACRO @1 ( GET 200 )  URL ( PASTE @1 )  TYPE     the ")" of the URL is honoured after the paste
+example : expand [mac1, .node urlX [paste 1], .node ty []] =
+    .ok [.node urlX [.node get' [.node code []]], .node ty []] := by decide +kernel
+example : inlineForest [(1, mac1)] 20 [.node urlX [paste 1], .node ty []] =
+    some [.dir urlX, .dir get', .dir code, .close, .dir ty] := by decide +kernel
+example : resolve [.dir urlX, .dir get', .dir code, .close, .dir ty] =
+    .ok [.node urlX [.node get' [.node code []]], .node ty []] := by decide +kernel
+
+-- a macro pasting another macro
+example : expand [mac1, mac2, .node url [paste 2]] =
+    .ok [.node url [.node get' [.node code []], .node post []]] := by decide +kernel
+example : inlineForest [(1, mac1), (2, mac2)] 20 [.node url [paste 2]] =
+    some [.dir url, .dir get', .dir code, .dir post] := by decide +kernel
+
+-- the unused macro @2 is inert
+example : expand [mac1, mac2, .node url [paste 1]] = expand [mac1, .node url [paste 1]] := by
+  decide +kernel
+
+-- undefined, duplicate, cyclic
+example : expand [.node url [paste 1]] = .error (.inPaste 4) := by decide +kernel
+example : expand [mac1, mac1, .node url [paste 1]] = .error (.duplicate 0) := by decide +kernel
+example : checkRecursion [(1, cyc1), (2, cyc2)] = .error (.recursion 3) := by decide +kernel
+example : expand [cyc1, cyc2, .node ty []] = .error (.recursion 3) := by decide +kernel
+example : checkRecursion [(1, mac1), (2, mac2)] = .ok () := by decide +kernel
+
+end Examples
 
 end JSight.C07
